@@ -32,6 +32,16 @@ pub enum Class {
 
 thread_local! {
     static CURRENT: Cell<Option<Class>> = const { Cell::new(None) };
+    /// location of the last panic on this thread (set by the panic hook)
+    pub static LAST_PANIC: std::cell::RefCell<String> = const { std::cell::RefCell::new(String::new()) };
+}
+
+/// Panic hook: silent, remembers where the panic happened.
+pub fn install_panic_hook() {
+    std::panic::set_hook(Box::new(|info| {
+        let loc = info.location().map(|l| format!("{}:{}", l.file(), l.line())).unwrap_or_default();
+        LAST_PANIC.with(|c| *c.borrow_mut() = loc);
+    }));
 }
 
 pub struct Shared {
@@ -136,7 +146,9 @@ impl Future for Perturbed {
                 } else {
                     "panic".to_string()
                 };
-                this.sh.panics.lock().unwrap().push((format!("{:?}", this.class), msg));
+                let loc = LAST_PANIC.with(|c| c.borrow().clone());
+                let loc = loc.rsplit("/repo/").next().unwrap_or("").to_string();
+                this.sh.panics.lock().unwrap().push((format!("{:?}", this.class), format!("{loc} {msg}")));
                 Poll::Ready(())
             }
         }
